@@ -136,3 +136,26 @@ Qed.
 
 Lemma event_id_length e l t : length (event_id e l t) = (8 + length t)%nat.
 Proof. unfold event_id. rewrite !app_length, !be_length. reflexivity. Qed.
+
+(* ---- builder: every id produced carries the epoch/lamport current at that moment ---- *)
+Fixpoint bops_ok (ops : list bop) : Prop :=
+  match ops with
+  | [] => True
+  | BSetEpoch e :: r => e < pow256 4 /\ bops_ok r
+  | BSetLamport l :: r => l < pow256 4 /\ bops_ok r
+  | _ :: r => bops_ok r
+  end.
+
+Lemma brun_carries b ops :
+  b_epoch b < pow256 4 -> b_lamport b < pow256 4 -> bops_ok ops ->
+  map (fun id => (id_epoch id, id_lamport id)) (brun b ops) = bspec (b_epoch b) (b_lamport b) ops.
+Proof.
+  revert b; induction ops as [|o r IH]; intros b He Hl Hok; [reflexivity|].
+  destruct o as [e|l|t|t]; cbn [brun bstep bspec bops_ok] in *.
+  - destruct Hok as [H1 H2]. apply (IH {| b_epoch := e; b_lamport := b_lamport b; b_id := b_id b |}); assumption.
+  - destruct Hok as [H1 H2]. apply (IH {| b_epoch := b_epoch b; b_lamport := l; b_id := b_id b |}); assumption.
+  - cbn [map]. rewrite id_epoch_event_id, id_lamport_event_id by assumption. f_equal.
+    apply (IH {| b_epoch := b_epoch b; b_lamport := b_lamport b; b_id := _ |}); assumption.
+  - cbn [map]. rewrite id_epoch_event_id, id_lamport_event_id by assumption. f_equal.
+    apply IH; assumption.
+Qed.
